@@ -24,7 +24,7 @@ RULE = (
     "plaintext|noise, and a schedule of device messages: arrival instants t0 + odd multiples of K/128 (never tie with a "
     "tick or a deadline), types drawn from all server-sendable message ids (PingResponse included; with and without a "
     "subscriber), gaps biased to just before/after a tick, 4.5K +- K/128 and long silences, horizon <= 60K, then silence "
-    "or a cut-off. Exhaustive sub-domain: all presence patterns of one message per half-interval slot over 10 (quick) / "
+    "or a cut-off; optionally every read that completes a message also carries the first 1-2 bytes of the next one (reads not aligned to frames). Exhaustive sub-domain: all presence patterns of one message per half-interval slot over 10 (quick) / "
     "14 (thorough) slots. non-trivial = at least one message falls inside a pong window (a deadline is armed) or "
     "within K/64 of a tick."
 )
@@ -87,10 +87,34 @@ def run_case(case: dict) -> CaseResult:
         state["t0"] = t0
         for tid in sub_types:
             sess.conn.add_message_callback(lambda m: got_cb.append(type(m).__name__), (by_id[tid],))
-        for off, tid in case["msgs"]:
-            t = t0 + off * (K / 128)
+        mis = int(case.get("misalign", 0))
+        sched = [(t0 + off * (K / 128), tid) for off, tid in case["msgs"]]
+        for t, tid in sched:
             state["arrivals"].append(t)
-            sess.device_send_at(t, (tid, b""))
+        if not mis:
+            for t, tid in sched:
+                sess.device_send_at(t, (tid, b""))
+        else:
+            # TCP reads not aligned to frame boundaries: the read that completes message i also carries the first
+            # `mis` bytes of message i+1 (whose last byte arrives at its own instant) – arrival instants unchanged
+            carry = {"tail": None}
+
+            def go(i):
+                ds = env.dev.session
+                tr = ds.transport
+                if tr.closing:
+                    return
+                cur = carry["tail"] if i else ds.encode((sched[0][1], b""))
+                data = cur
+                if i + 1 < len(sched):
+                    nxt = ds.encode((sched[i + 1][1], b""))
+                    k = min(mis, len(nxt) - 1)
+                    data += nxt[:k]
+                    carry["tail"] = nxt[k:]
+                tr.feed(data)
+
+            for i, (t, _tid) in enumerate(sched):
+                env.loop.sim_at(t, go, i)
         # a waiter with a huge timeout observes the connection's fatal error
         env.spawn("probe", sess.cli.get_voice_assistant_configuration(timeout=1e5))
         from vf.simloop import START
@@ -210,6 +234,8 @@ def _case(draw, tier):
         case["subscribe"] = sorted(set(draw(st.lists(st.sampled_from([8, 26, 25, 29] + types[:10]), max_size=3))))
     if draw(st.integers(0, 4)) == 0:
         case["cut_at_k"] = draw(st.sampled_from([3.25, 5.75, 10.25, 20.75, 61.25]))
+    if draw(st.integers(0, 2)) == 0:
+        case["misalign"] = draw(st.sampled_from([1, 2, 2]))
     return case
 
 
@@ -222,6 +248,10 @@ def enumerated(tier):
     for pat in range(2**nslots):
         msgs = [[64 * i + 33 if (64 * i + 33) % 2 else 64 * i + 32 + 1, 8] for i in range(nslots) if pat >> i & 1]
         yield {"K": 2.0, "noise": False, "msgs": msgs}
+    # the same patterns with reads that end inside the next frame (every 4th pattern)
+    for pat in range(1, 2**nslots, 4):
+        msgs = [[64 * i + 33 if (64 * i + 33) % 2 else 64 * i + 32 + 1, 8] for i in range(nslots) if pat >> i & 1]
+        yield {"K": 2.0, "noise": pat % 3 == 0, "msgs": msgs, "misalign": 1 + pat % 2}
     # every server-sendable type once as the only sign of life inside a pong window
     for tid in server_types():
         yield {"K": 1.0, "noise": False, "msgs": [[129 + 2 * (tid % 50), tid]], "subscribe": [tid] if tid % 2 else []}
